@@ -94,7 +94,7 @@ Proof.
   - exists prev, next, last, exp. split; [reflexivity|].
     assert (E : zlen all = zlen pre) by (rewrite Hall, app_nil_r; reflexivity).
     rewrite E. exact HI.
-  - inversion Hwf as [|? ? (Hch & Ht0) Hwf']; subst.
+  - inversion Hwf as [|? ? Hch Hwf']; subst. unfold rec_wf in Hch.
     cbn [rl_loop]. replace (r_ch r <? 0) with false by lia.
     set (i := zlen pre) in *.
     assert (Hri : rec_at all i = r) by (rewrite Hall; apply rec_at_app_r).
@@ -134,16 +134,17 @@ Proof.
     (* finishing: invariant at i+1 given the new prev / next *)
     assert (Hfinish : forall prev' next',
       zlen prev' = N -> zlen next' = N ->
-      (forall i', 0 <= i' < N -> nthZ prev' i' = if i' =? i then (if (negb (r_reci r =? 0)) && (r_time r =? alookup 0 ch exp) then li else -1) else nthZ prev i') ->
-      (forall j, 0 <= j < N -> nthZ next' j = if (negb (r_reci r =? 0)) && (r_time r =? alookup 0 ch exp) && (j =? li) then i else nthZ next j) ->
+      (forall i', 0 <= i' < N -> nthZ prev' i' = if i' =? i then (if (negb (r_reci r =? 0)) && (negb (li =? NO_RECORD_LINK) && (r_time r =? alookup 0 ch exp)) then li else -1) else nthZ prev i') ->
+      (forall j, 0 <= j < N -> nthZ next' j = if (negb (r_reci r =? 0)) && (negb (li =? NO_RECORD_LINK) && (r_time r =? alookup 0 ch exp)) && (j =? li) then i else nthZ next j) ->
       LInv (i + 1) prev' next' ((ch, i) :: last) ((ch, r_time r + spr * r_dt r) :: exp)).
     { intros prev' next' Lp' Ln' Hp' Hn'.
-      set (mk := negb (r_reci r =? 0) && (r_time r =? alookup 0 ch exp)) in *.
+      set (mk := negb (r_reci r =? 0) && (negb (li =? NO_RECORD_LINK) && (r_time r =? alookup 0 ch exp))) in *.
       assert (Hmk : mk = true -> 0 <= li /\ linked spr all li i).
-      { intros E. unfold mk in E. apply andb_true_iff in E as [E1 E2].
+      { intros E. unfold mk in E. apply andb_true_iff in E as [E1 E2]. apply andb_true_iff in E2 as [E2 E3].
+        unfold NO_RECORD_LINK in E2.
         assert (Hr : r_reci r <> 0) by lia. assert (Ht : r_time r = alookup 0 ch exp) by lia.
         destruct Hli as [(E & H)|(B & C & H)].
-        - exfalso. apply (Ht0 Hr). rewrite Ht. apply Hexp0. exact E.
+        - exfalso. lia.
         - split; [lia|]. unfold linked. rewrite Hri. fold ch. repeat split; auto; try lia;
           rewrite Ht; apply Hexp1; lia. }
       unfold LInv. split; [exact Lp'|]. split; [exact Ln'|]. split; [exact Hlast'|]. split; [exact Hexp'|].
@@ -159,6 +160,7 @@ Proof.
       - rewrite Hp' by auto. intros (HL & Hlt). destruct (i' =? i) eqn:E.
         + assert (i' = i) by lia. subst i'. destruct (Hnolink j HL) as (-> & Hl0 & Hr & Ht).
           unfold mk. replace (r_reci r =? 0) with false by lia. replace (r_time r =? alookup 0 ch exp) with true by lia.
+          replace (li =? NO_RECORD_LINK) with false by (unfold NO_RECORD_LINK; lia).
           reflexivity.
         + destruct (Hprev i' H) as (_ & _ & Hiff). apply Hiff; auto. split; auto. lia.
       - rewrite Hn' by auto. destruct (mk && (j =? li)) eqn:E; [lia|]. apply Hnext; auto.
@@ -169,6 +171,7 @@ Proof.
       - rewrite Hn' by auto. intros (HL & Hlt). destruct (Z.eq_dec i' i) as [->|Hne].
         + destruct (Hnolink j HL) as (-> & Hl0 & Hr & Ht).
           unfold mk. replace (r_reci r =? 0) with false by lia. replace (r_time r =? alookup 0 ch exp) with true by lia.
+          replace (li =? NO_RECORD_LINK) with false by (unfold NO_RECORD_LINK; lia).
           replace (li =? li) with true by lia. reflexivity.
         + destruct (mk && (j =? li)) eqn:E.
           * (* next[li] was still free: a link li -> i' < i would put i' between li and i in channel ch *)
@@ -187,11 +190,11 @@ Proof.
         - intros i' Hi'. rewrite nthZ_set_idx by lia. rewrite ?Er. cbn [negb andb]. reflexivity.
         - intros j Hj. rewrite ?Er. cbn [negb andb]. reflexivity. }
       rewrite Hi1 in Hrun. exists p, n, l', e'. split; auto.
-    + destruct (r_time r =? alookup 0 ch exp) eqn:Et.
+    + destruct (negb (li =? NO_RECORD_LINK) && (r_time r =? alookup 0 ch exp)) eqn:Et.
       * (* continuing fragment *)
         assert (Hl0 : 0 <= li < i).
-        { destruct Hli as [(E & H)|(B & C & H)]; [|lia]. exfalso. apply Ht0; [lia|].
-          rewrite Hexp0 in Et by exact E. lia. }
+        { apply andb_true_iff in Et as [Et1 _]. unfold NO_RECORD_LINK in Et1.
+          destruct Hli as [(E & H)|(B & C & H)]; lia. }
         destruct (IH (pre ++ [r]) (set_idx i li prev) (set_idx li i next) ((ch, i) :: last)
                      ((ch, r_time r + spr * r_dt r) :: exp)) as (p & n & l' & e' & Hrun & HF); auto.
         { rewrite Hi1. apply Hfinish.
